@@ -1,6 +1,7 @@
 import argparse
 import contextlib
 import logging
+import re
 import tempfile
 from pathlib import Path
 
@@ -16,6 +17,11 @@ class Command(BaseCommand):
     help = "Clip a dataset to the given geographic bounds"
 
     def add_arguments(self, parser: argparse.ArgumentParser) -> None:
+        # Bounds in the western or southern hemisphere start with a minus sign.
+        # argparse only takes a word that is one whole negative number for an argument,
+        # '-10,50,5,60' would be read as an unknown option.
+        parser._negative_number_matcher = re.compile(r'^-(\d|\.\d)')  # type: ignore
+
         parser.add_argument(
             "input_path", type=Path,
             help="Path to input netCDF4 file")
